@@ -123,9 +123,17 @@ class ParseWalk(object):
 
 
 def r_delimiters(mod, rep, R='R5.1'):
-    cs = mod.assign('cat_split')
-    if not (isinstance(cs, ast.Call) and src(cs.func) == 're.compile' and isinstance(cs.args[0], ast.Constant)):
-        raise AnalysisError('%s: cat_split is not re.compile(<literal>)' % REL)
+    # the tokeniser: the module-level compiled regex that Category.parse (or a helper it calls) uses
+    from ..core import closure_walk
+    regexes = {t.id: s_.value for s_ in mod.tree.body if isinstance(s_, ast.Assign) and isinstance(s_.value, ast.Call)
+               and src(s_.value.func) == 're.compile' and s_.value.args and isinstance(s_.value.args[0], ast.Constant)
+               for t in s_.targets if isinstance(t, ast.Name)}
+    used = [n.id for n in closure_walk(mod.get('Category.parse')) if isinstance(n, ast.Name) and n.id in regexes]
+    used = list(dict.fromkeys(used))
+    if len(used) != 1:
+        raise AnalysisError('%s: cannot identify the tokeniser regex used by Category.parse (candidates: %s)' % (REL, used))
+    TOK = used[0]
+    cs = regexes[TOK]
     pat = cs.args[0].value
     cls, style, swallowed = regex_class(pat)
     w = '%s:%s <module>' % (REL, cs.lineno)
@@ -186,9 +194,9 @@ def r_delimiters(mod, rep, R='R5.1'):
         for t in terms_of(st):
             for s_ in subterms(t):
                 if style == 'split' and s_[0] == 'call' and s_[1][0] == 'attr' and s_[1][2] == 'split' and s_[2] == (C(' '),) \
-                        and s_[1][1] == ('call', A(N('cat_split'), 'sub'), (C(' \\1 '), text), ()):
+                        and s_[1][1] == ('call', A(N(TOK), 'sub'), (C(' \\1 '), text), ()):
                     ok = True
-                if style != 'split' and s_ == ('call', A(N('cat_split'), 'findall'), (text,), ()):
+                if style != 'split' and s_ == ('call', A(N(TOK), 'findall'), (text,), ()):
                     ok = True
     rep.check(ok, R, '%s:%s Category.parse' % (REL, parse.lineno), 'delimiters:tokenise',
               'the text is tokenised with the delimiter regex (%s style): blanks never matter' % style,
@@ -222,8 +230,18 @@ def r_feature(mod, rep, R='R5.2'):
         conds = [(c, pol) for c, pol, _ in st.conds]
         both_f = ('and', (logic.formula(('cmp', 'in', C('='), N(p))), logic.formula(('cmp', 'in', C(','), N(p)))))
         if logic.implied(conds, both_f):
+            # exactly TernaryFeature(*(tuple(kv.split('=')) for kv in text.split(','))): the pairs in the order written
             t = ret
-            tern = t[0] == 'call' and t[1] == N('TernaryFeature') and "split(',')" in show(t).replace('"', "'") and "split('=')" in show(t).replace('"', "'")
+            tern = False
+            if t[0] == 'call' and t[1] == N('TernaryFeature') and len(t[2]) == 1 and not t[3] and t[2][0][0] == 'star':
+                comp = t[2][0][1]
+                if comp[0] in ('listcomp', 'genexp') and len(comp[2]) == 1:
+                    it, filt = comp[2][0]
+                    el = comp[1]
+                    is_elem = lambda x: x[0] == 'elem' and x[1] == it
+                    pair = el[2][0] if (el[0] == 'call' and el[1] == N('tuple') and len(el[2]) == 1) else el
+                    tern = it == ('call', A(N(p), 'split'), (C(','),), ()) and not filt and pair[0] == 'call' and pair[1][0] == 'attr' \
+                        and pair[1][2] == 'split' and is_elem(pair[1][1]) and pair[2] == (C('='),)
         elif logic.excluded(conds, both_f):
             unary = ret == ('call', N('UnaryFeature'), (N(p),), ())
     rep.check(tern, R, wf, 'feature:parse-ternary', 'text with both separators is split on , and = into a three-part feature', 'Feature.parse does not split on , and = for the three-part form')
